@@ -222,6 +222,9 @@ func (x *c14Run) roundHostLeft(r c14Round, srv *c14Server) {
 	caseSpec := map[string]any{"round": r, "flags": cfg.flags()}
 	// a join inside the lifetime, host connected
 	witness := srv.join(nil, sess.Code, "receiver", c14PeerID("wit"), nil)
+	if witness.Upgraded() {
+		witness.WS.WaitRegistered(3 * time.Second) // so that it is in the hub when peer_left(host) is broadcast
+	}
 	hostUp := host.WS.Alive(3 * time.Second)
 	x.lifetimeChecks(r, sess, []*c14Join{witness}, hostUp, caseSpec)
 	if !witness.Upgraded() || !hostUp {
